@@ -7,7 +7,7 @@
       expects) is instantiated with real Nasa / CatSite / ChemkinReaction objects and
       written by the real writers; the expectation travels with the trace and is compared
       by the trace specification after IT parsed the real file (clause ReplayDoc).
-(C->S) those runs plus random mechanisms (up to 40 reactions / 30 species / 3 sites, all
+(C->S) those runs (run lists = the 84 TLC run patterns over 2 temperatures x 2 pressures) plus random mechanisms (up to 40 reactions / 30 species / 3 sites, all
       activation-method names, float formats, delimiters, condition lists) are recorded -
       one NDJSON event per writer / reader call, the file text lexed into tokens, the
       model numbers taken from the objects' own getters - and judged by
@@ -280,15 +280,11 @@ def _thermo(rnd):
             'a6': round(rnd.uniform(-4e4, 2e4), 1), 'a7': round(rnd.uniform(-5., 30.), 3)}
 
 
-def _options(rnd, species, need_ts_free):
+def _options(rnd, species, need_ts_free, runs=None):
     """need_ts_free: some non-adsorption reaction has no transition state (E methods excluded)."""
     acts = [a for a in ACTS if not (need_ts_free and 'E' in a.split('_')[1])]
     ea_acts = [a for a in EA_ACTS if not (need_ts_free and a == 'get_EoRT_act')]
-    n = rnd.randint(1, 8)
-    conds = [{'T': round(rnd.uniform(300., 1100.), rnd.choice([0, 1, 2])),
-              'P': rnd.choice([1., 0.5, 2., round(rnd.uniform(0.1, 30.), 3)]),
-              'Q': round(rnd.uniform(0.5, 500.), 2), 'abyv': round(rnd.uniform(1., 2000.), 1)}
-             for _ in range(n)]
+    conds = _conditions(rnd, runs)
     names = [s['name'] for s in species]
     fracs = []
     for _ in range(rnd.randint(1, 8)):
@@ -306,6 +302,19 @@ def _options(rnd, species, need_ts_free):
             'tflow_ff': rnd.choice(['.3E', '.2E', ' .4E', '.5E']),
             'tube_ff': rnd.choice([' .3f', '.3f', ' .5f', '.2E']),
             'conds': conds, 'fracs': fracs}
+
+
+def _conditions(rnd, runs=None):
+    """Run list.  runs = a TLC run pattern (sequence of <<T index, P index>>) or None: a random
+    pattern of 1-8 runs over pools of 1-3 temperatures and 1-3 pressures, so that equal T with
+    different P, repeated (T, P) pairs and different T with equal P all occur regularly."""
+    if runs is None:
+        nt, npr = rnd.randint(1, 3), rnd.randint(1, 3)
+        runs = [[rnd.randint(1, nt), rnd.randint(1, npr)] for _ in range(rnd.randint(1, 8))]
+    Ts = rnd.sample([300., 350., 425.5, 500., 650., 800., 975.25, 1100.], 3)
+    Ps = rnd.sample([0.1, 0.5, 1., 2., 5., 20., round(rnd.uniform(0.05, 40.), 3)], 3)
+    return [{'T': Ts[t - 1], 'P': Ps[p - 1], 'Q': round(rnd.uniform(0.5, 500.), 2),
+             'abyv': round(rnd.uniform(1., 2000.), 1)} for t, p in runs]
 
 
 def _finish_rx(rnd, case, rx, p_ts):
@@ -418,7 +427,7 @@ def _str(codes):
     return ''.join(chr(c) for c in codes)
 
 
-def tlc_case(rec, exp, rnd, cid):
+def tlc_case(rec, exp, rnd, cid, runs=None):
     """A printed <<"CASE", Mech, Expected>> record -> concrete case."""
     sites = [{'name': _str(s['name']), 'bulk': _str(s['bulk']),
               'sden': float('%.4e' % rnd.uniform(1e-10, 5e-9)), 'dens': round(rnd.uniform(1., 25.), 1)}
@@ -435,7 +444,7 @@ def tlc_case(rec, exp, rnd, cid):
         rx = {'lhs': [list(t) for t in r['lhs']], 'rhs': [list(t) for t in r['rhs']],
               'ads': bool(r['ads']) and rnd.random() < 0.6}
         case['rx'].append(_finish_rx(rnd, case, rx, p_ts))
-    case['opts'] = _options(rnd, species, any(not r['ads'] and not r['ts'] for r in case['rx']))
+    case['opts'] = _options(rnd, species, any(not r['ads'] and not r['ts'] for r in case['rx']), runs)
     case['exp'] = {'gasrx': list(exp['gasrx']), 'gassp': [list(n) for n in exp['gassp']],
                    'sites': [{'name': list(s['name']), 'ads': [list(a) for a in s['ads']]} for s in exp['sites']],
                    'bulk': [list(b) for b in exp['bulk']], 'neag': exp['neag'], 'neas': exp['neas']}
@@ -480,7 +489,9 @@ def _exercised(cases, traces):
         'surface_reactions', 'adsorption_reactions', 'reactions_with_ts', 'gas_reactants_nongas_product',
         'abe_triples_with_model_value', 'ea_rows_with_model_value', 'adsorbate_species', 'bulk_species',
         'mechanisms_with_2plus_sites', 'mechanisms_gas_and_surface', 'tlc_cases_with_expectation',
-        'tube_rows', 'tflow_rows', 'dimensionless_act', 'spaced_delimiters')}
+        'tube_rows', 'tflow_rows', 'dimensionless_act', 'spaced_delimiters',
+        'ea_gibbs_plain_method', 'ea_gibbs_adsorption_method', 'run_pairs_equalT_diffP',
+        'run_pairs_equal_TP', 'run_pairs_diffT_equalP', 'ea_entries_equalT_diffP_value_differs')}
     for case, (tid, events) in zip(cases, traces):
         sp = case['species']
         kinds = []
@@ -501,6 +512,19 @@ def _exercised(cases, traces):
         ex['tlc_cases_with_expectation'] += 'exp' in case
         ex['dimensionless_act'] += 'oRT' in case['opts']['act']
         ex['spaced_delimiters'] += (' ' in case['opts']['sd'] or ' ' in case['opts']['rd'])
+        ex['ea_gibbs_plain_method'] += case['opts']['ea_act'] == 'get_GoRT_act'
+        ex['ea_gibbs_adsorption_method'] += case['opts']['ea_ads_act'] == 'get_GoRT_act'
+        cs = case['opts']['conds']
+        pairs = [(a, b) for a in range(len(cs)) for b in range(a + 1, len(cs))]
+        sameT = [(a, b) for a, b in pairs if cs[a]['T'] == cs[b]['T'] and cs[a]['P'] != cs[b]['P']]
+        ex['run_pairs_equalT_diffP'] += len(sameT)
+        ex['run_pairs_equal_TP'] += sum(1 for a, b in pairs if cs[a]['T'] == cs[b]['T'] and cs[a]['P'] == cs[b]['P'])
+        ex['run_pairs_diffT_equalP'] += sum(1 for a, b in pairs if cs[a]['T'] != cs[b]['T'] and cs[a]['P'] == cs[b]['P'])
+        for e in events:                 # entries whose model value separates two runs of equal T
+            if e['ev'] == 'write_ea' and not e['raised']:
+                for m in e['model']:
+                    if m['ok']:
+                        ex['ea_entries_equalT_diffP_value_differs'] += sum(1 for a, b in sameT if m['v'][a] != m['v'][b])
         for e in events:
             if e['ev'] == 'read':
                 ex['read_events'] += 1
@@ -521,7 +545,7 @@ def _exercised(cases, traces):
 
 
 REJECTED = [('MC_ChemkinDoc_reactants', 'Partition'), ('MC_ChemkinDoc_digitname', 'ReadBack'),
-            ('MC_ChemkinDoc_lonebulk', 'EachOnceBulk')]
+            ('MC_ChemkinDoc_lonebulk', 'EachOnceBulk'), ('MC_ChemkinDoc_memoT', 'RunsInv')]
 
 
 def run(ctx):
@@ -571,7 +595,16 @@ def run(ctx):
             raise core.MachineryError('TLC printed no cases')
         chunks = rnd.sample(chunks, min(ctx.pick(700, 3000), len(chunks)))
         recs = [core.parse_tla(c) for c in chunks]
-        cases = [tlc_case(rec[1], rec[2], rnd, 't%d' % k) for k, rec in enumerate(recs)]
+        i = r.out.find('<< "RUNS"')
+        runlists = [core.parse_tla(pv)[1] for pv in core.extract_printed(r.out[max(i, 0):max(i, 0) + 60000])
+                    if i >= 0 and core.tagged(pv, 'RUNS')][:1]
+        if not runlists or len(runlists[0]) < 2:
+            raise core.MachineryError('TLC printed no run lists')
+        runlists = [[list(x) for x in rl] for rl in runlists[0]]
+        rnd.shuffle(runlists)
+        ctx.coverage['tlc_run_lists'] = len(runlists)
+        cases = [tlc_case(rec[1], rec[2], rnd, 't%d' % k, runlists[k % len(runlists)])
+                 for k, rec in enumerate(recs)]
         for k in range(ctx.pick(260, 1500)):
             cases.append(random_case(rnd, 'r%d' % k, big=(k % 4 == 0)))
     results = core.pmap(_safe_execute, cases)
